@@ -1132,6 +1132,23 @@ def run(ctx):
                           {"kind": "iii-must-succeed", "api": "solve_shapes", "description": "(a b) cse..., (a b)", "shapes": [[6, 2, 3], [6]], "params": {}, "detail": bad})
     except Exception as e:   # the reference call itself fails: nothing to compare
         ctx.count("d19-probe-unavailable:" + type(e).__name__)
+    # An ellipsis and its written-out repetition have the same solutions and the same tensor shapes (Props/C07Stage2.lean:
+    # ellipsis_unroll), so the solver must treat them alike: same outcome (success / failure) and same reported shapes.
+    for short, long_, shapes in [("(a b)...", "(a0 b0) (a1 b1)", [[6, 4]]), ("(a b)... c", "(a0 b0) (a1 b1) c", [[6, 4, 3]]),
+                                 ("c (a + b)...", "c (a0 + b0) (a1 + b1)", [[3, 6, 4]]), ("(a b c)...", "(a0 b0 c0) (a1 b1 c1)", [[8, 12]]),
+                                 ("((a b)... c)", "((a0 b0) (a1 b1) c)", [[48]])]:
+        for api in ("matches", "solve_shapes"):
+            rs = call_real({"api": api, "desc": short, "shapes": shapes, "params": {}})
+            rl = call_real({"api": api, "desc": long_, "shapes": shapes, "params": {}})
+            ctx.count("unroll-outcome-pairs")
+            ok_s = rs.get("status") == "ok" and (api != "matches" or rs["reported"]["matches"])
+            ok_l = rl.get("status") == "ok" and (api != "matches" or rl["reported"]["matches"])
+            if rs.get("captured") is False or rl.get("captured") is False:
+                continue
+            if ok_s != ok_l or (ok_s and api == "solve_shapes" and rs["reported"].get("shapes") != rl["reported"].get("shapes")):
+                ctx.violation(f'unroll-outcome-differs:{api}("{short}" vs "{long_}"; {",".join("(" + ",".join(map(str, sh)) + ")" for sh in shapes)}; )',
+                              {"kind": "an ellipsis and its written-out repetition are solved differently", "api": api, "short": short, "long": long_, "shapes": shapes,
+                               "short_outcome": {k: rs.get(k) for k in ("status", "exc", "reported")}, "long_outcome": {k: rl.get(k) for k in ("status", "exc", "reported")}})
     for case in directed_structural():
         ctx.count("directed-structural-cases")
         handle(case)
